@@ -167,3 +167,22 @@ def monomial(repo, mod, e, local, depth=0):
     return None
 
 
+
+
+def rel(cmp, is_subject):
+    """A single comparison seen from the side of its *subject*: (subject expr, op string, other expr) with op one of
+    '<' '<=' '>' '>=' '==' '!='; None when it is not a single comparison or no side is the subject.  (E0 stores every
+    single `a > b` as `b < a`; rules therefore ask for the relation relative to the operand they care about.)"""
+    if not (isinstance(cmp, ast.Compare) and len(cmp.ops) == 1):
+        return None
+    names = {ast.Lt: "<", ast.LtE: "<=", ast.Gt: ">", ast.GtE: ">=", ast.Eq: "==", ast.NotEq: "!="}
+    flip = {"<": ">", "<=": ">=", ">": "<", ">=": "<=", "==": "==", "!=": "!="}
+    op = names.get(type(cmp.ops[0]))
+    if op is None:
+        return None
+    l, r = cmp.left, cmp.comparators[0]
+    if is_subject(l):
+        return l, op, r
+    if is_subject(r):
+        return r, flip[op], l
+    return None
